@@ -1,5 +1,6 @@
 """C17 — searches are pure (DESIGN.md §5 C17). Whole-crate structural facts; claimed as proof modulo trusted base."""
 import os
+from rules.teddy import r15_7
 import re
 
 from acverif.core import compile_control, VERIF
@@ -406,7 +407,7 @@ def r17_8(cx):
     cx.report('R17.8', 'crate', 'globals', not g, 'no call into std::env/time/thread/fs/process/net and no randomly seeded hash container')
 
 
-RULES = [('R17.1', r17_1), ('R17.2', r17_2), ('R17.3', r17_3), ('R17.4', r17_4), ('R17.5', r17_5), ('R17.6', r17_6), ('R17.7', r17_7), ('R17.8', r17_8)]
+RULES = [('R15.7', r15_7), ('R17.1', r17_1), ('R17.2', r17_2), ('R17.3', r17_3), ('R17.4', r17_4), ('R17.5', r17_5), ('R17.6', r17_6), ('R17.7', r17_7), ('R17.8', r17_8)]
 THOROUGH_CONFIGS = ['default', 'std', 'perf', 'nodefault', 'logging']
 
 CLAIM = """Proof-style static argument: eight whole-crate premises (receivers, no interior mutability in the searcher type closure,
